@@ -75,7 +75,7 @@ bool FilePersister::initialise(const f8String& dbDir, const f8String& dbFname, b
 					idxlst.push_back(ostr.str());
 				}
 
-				for (unsigned ii(_rotnum); ii; --ii)
+				for (unsigned ii(dblst.size() - 1); ii; --ii)	// the lists hold at most max_rotation + 1 names
 				{
 					rename (dblst[ii - 1].c_str(), dblst[ii].c_str());   // ignore errors
 					rename (idxlst[ii - 1].c_str(), idxlst[ii].c_str()); // ignore errors
